@@ -418,7 +418,12 @@ func (runInfo *runInfoStruct) invokeItemExpr(expr *ast.ItemExpr) {
 	if runInfo.err != nil {
 		return
 	}
+	// the container is the one read now, also when evaluating the index replaces it
 	item := runInfo.rv
+	if item.Kind() == reflect.Interface && !item.IsNil() {
+		item = item.Elem()
+	}
+	item = heldOperand(item)
 
 	runInfo.expr = expr.Index
 	runInfo.invokeExpr()
@@ -470,6 +475,8 @@ func (runInfo *runInfoStruct) invokeSliceExpr(expr *ast.SliceExpr) {
 	if item.Kind() == reflect.Interface && !item.IsNil() {
 		item = item.Elem()
 	}
+	// the sliced value is the one read now, also when evaluating a bound replaces it
+	item = heldOperand(item)
 
 	switch item.Kind() {
 	case reflect.String, reflect.Slice, reflect.Array:
